@@ -614,6 +614,16 @@ CLAIMED["C15"]["text"] += (" Round 9 (gaph): stage 2c = the staging-loop matrix 
                            "descriptors, double closes (EBADF counted by interposing close), heap balance, judged by Sf.RsrcSwap.obsOk; code_rule_releases / early_rule_leaks (lean/SfProps/C15Second.lean) over the filedes / savedes swap of sd2_write_rsrc_fork.")
 
 
+CLAIMED["C11"]["text"] += (" Round 9 (gapi, vlib/blockedge.py): crash points exactly ON / one frame before / one behind a codec block boundary for every block codec x both update modes (deterministic); "
+                           "lean/SfProps/C11BlockEdge.lean: when a write call of ANY Sf.Block.Writer returns no complete block is pending (session_all_complete_blocks), the lazy loop defers one (lazy_rule_defers_block).")
+CLAIMED["C12"]["text"] += (" Round 9 (gapi): the CR/LF normaliser on LINE STRUCTURE (crlf_scripts: empty lines, runs / mixes of line ends, texts ending in the middle of a pair at the edge of the 16 KiB field); lean/SfProps/C12Crlf.lean: crlf_canonical, crlf_keeps_lines, "
+                           "crlf_idempotent, crlf_truncates_at_token against an independent tokeniser. Repaired: KF-C12-RF64-ODD-PAD (reader skips the pad byte behind odd audio), KF-C12-AIFF-CUE-NAME-254 (pascal strings up to 255 characters).")
+CLAIMED["C13"]["text"] += (" Round 9 (gapi, vlib/queryfix.py): 'without disturbing audio' for a chunk query between two reads at a position reached by reading, every codec of every chunk-carrying container (deterministic), judged by Sf.Abs; "
+                           "lean/SfProps/C13QuerySeek.lean: the save/restore program needs no codec seek; the last_op-forgetting variant loses the audio where the codec's seek refuses (DWVW off frame 0, G.72x, NMS).")
+CLAIMED["C18"]["text"] += (" Round 9 (gapi, vlib/c18foreign.py): foreign-but-valid PEAK placements (behind the audio, with unknown chunks around) x SFM_RDWR sessions x close -> re-open: PEAK still present, GET == chunk == true maxima and first positions, CALC == samples; "
+                           "lean/SfProps/C18PeakLoc.lean: close keeps exactly one PEAK chunk for both locations, a tailer without the PEAK clause loses a chunk behind the audio.")
+
+
 def main():
     checks = []
     for p in PROPS:
